@@ -255,6 +255,9 @@ structure St (V : Type) where
   inArrayRow : Bool := false
   arr : List (List V) := []
   arrRow : List V := []
+  /-- `arrayDepth`: `opfStack.Len()` where the open array constant started (repository fix
+  fecba5e: only tokens at that depth belong to the array constant) -/
+  arrDepth : Nat := 0
 
 /-- `for opftStack.Peek().(efp.Token) != opfStack.Peek().(efp.Token) { calculate…; opftStack.Pop() }`
 with the function separator `sep = opfStack.Peek()`.  A failing `calculate` puts an
@@ -372,7 +375,7 @@ def inFuncRest {V} (S : Sem V) (st : St V) (f t n : Tok) : Outcome (St V) :=
   if t.ty == .argument then
     -- column / row separators of an open array constant are not function arguments
     -- (repository fix 6963681; before it they flushed the operator stack like any argument)
-    if st.inArray then .ok st else
+    if st.inArray && st.opf.length == st.arrDepth then .ok st else
     match flushToSep S true f st.opft st.opfd st.args with
     | .err => .err
     | .panic => .panic
@@ -383,13 +386,13 @@ def inFuncRest {V} (S : Sem V) (st : St V) (f t n : Tok) : Outcome (St V) :=
         | .ok args' => .ok { st with opft := opft, opfd := rest, args := args' }
         | .err => .err
         | .panic => .panic
-  else if st.inArrayRow && isOperand t then
+  else if st.inArrayRow && st.opf.length == st.arrDepth && isOperand t then
     match st.opfd with
     | [] => .panic
     | v :: rest => .ok { st with opfd := rest, arrRow := st.arrRow ++ [v] }
-  else if st.inArrayRow && isFuncStop t then
+  else if st.inArrayRow && st.opf.length == st.arrDepth && isFuncStop t then
     .ok { st with arr := st.arr ++ [st.arrRow], inArrayRow := false }
-  else if st.inArray && isFuncStop t then
+  else if st.inArray && st.opf.length == st.arrDepth && isFuncStop t then
     match pushArg (S.mkMatrix st.arr) st.args with
     | .ok args' => .ok { st with args := args', inArray := false }
     | .err => .err
@@ -416,8 +419,8 @@ def step {V} (S : Sem V) (st : St V) (t n : Tok) : Outcome (St V) :=
   | .panic => .panic
   | .ok st =>
   if isFuncStart t then
-    if t.val == "ARRAY" then .ok { st with inArray := true, arr := [] }
-    else if t.val == "ARRAYROW" then .ok { st with inArrayRow := true, arrRow := [] }
+    if t.val == "ARRAY" then .ok { st with inArray := true, arr := [], arrDepth := st.opf.length }
+    else if t.val == "ARRAYROW" then .ok { st with inArrayRow := true, arrRow := [], arrDepth := st.opf.length }
     else .ok { st with opf := t :: st.opf, args := [] :: st.args, opft := t :: st.opft }
   else match st.opf with
     | [] =>
